@@ -206,6 +206,151 @@ theorem C05_one_retry_then_error {D : Type} (classify : Int → D → Step) (dl 
         · rw [h'] at h; cases h
       · cases h
 
+/-! ### Origin clause per request mode (seeded change C05-4 / C05-1: "interleaved" match not
+tied to an interleaved request) -/
+
+/-- After a *basic* request the only origin timestamp that is accepted is the request's
+    transmit timestamp, and the response is evaluated as a basic one (the tuple is the
+    exchange's own: `t0 = cTxTime1`, `t3 = cRxTime`) — whatever the request's receive field
+    (zero for a basic request) and the client's stale `prev` contain. -/
+theorem C05_basic_request_accepts_only_tx_echo (cfg : Cfg) (prev : Prev) (req : Req) (cTx1 cRx : Int)
+    (p : Payload) (a : Accepted) (hb : req.interleaved = false)
+    (h : ntpStage cfg prev req cTx1 cRx p = .accept a) :
+    p.pkt.origin = req.tx ∧ a.il = false ∧ a.t0 = cTx1 ∧ a.t3 = cRx := by
+  obtain ⟨_, _, ho, _, ha, _, _⟩ := ntpStage_accept cfg prev req cTx1 cRx p a h
+  refine ⟨?_, ?_, ?_, ?_⟩
+  · rcases ho with ⟨hi, _⟩ | ho
+    · rw [hb] at hi; cases hi
+    · exact ho
+  all_goals (subst ha; simp [tupleOf, hb])
+
+/-- In particular a datagram whose origin timestamp is all zero — equal to the receive field
+    of every basic request — is never accepted after a basic request built by `mkRequest`
+    (its transmit field is `Time64FromTime(cTxTime0)`, non-zero for every clock reading that
+    is not exactly the NTP era boundary). -/
+theorem C05_zero_origin_never_accepted_after_basic_request (cfg : Cfg) (prev : Prev)
+    (reference : String) (now cTx1 cRx : Int) (p : Payload)
+    (hb : (mkRequest cfg prev reference now).interleaved = false)
+    (hnow : ofTime now ≠ zero64) (hz : p.pkt.origin = zero64) :
+    (ntpStage cfg prev (mkRequest cfg prev reference now) cTx1 cRx p).isAccept = false := by
+  cases hs : ntpStage cfg prev (mkRequest cfg prev reference now) cTx1 cRx p with
+  | accept a =>
+    exfalso
+    have ho := (C05_basic_request_accepts_only_tx_echo cfg prev _ cTx1 cRx p a hb hs).1
+    have htx : (mkRequest cfg prev reference now).tx = ofTime now := by
+      unfold mkRequest at hb ⊢
+      split
+      · rename_i hc; rw [if_pos hc] at hb; cases hb
+      · rfl
+    rw [hz, htx] at ho
+    exact hnow ho.symm
+  | skip e => rfl
+  | fatal e => rfl
+  | panic => rfl
+
+/-- non-vacuity: a client with stale state (last exchange 10 s ago) sends a basic request
+    although interleaved mode is on; the zero-origin datagram whose transmit stamp lies just
+    after `prev.sRx` (a valid interleaved tuple w.r.t. the stale state) is skipped, the same
+    datagram echoing the transmit timestamp is what a basic exchange evaluates. -/
+example :
+    let prev : Prev := ⟨"S", true, ofTime 10000000000, ofTime 10000050000, ofTime 10000030000⟩
+    let cfg : Cfg := ⟨.scion, true, false, true⟩
+    let req := mkRequest cfg prev "S" 20000000000
+    req.interleaved = false ∧ ofTime 20000000000 ≠ zero64 ∧
+    ntpStage cfg prev req 20000000050 20000000900
+      ⟨48, ⟨36, 1, zero64, ofTime 20000000100, ofTime 10000050000⟩, true, true, true⟩ = .skip .unexpected ∧
+    (ntpStage cfg prev req 20000000050 20000000900
+      ⟨48, ⟨36, 1, req.tx, ofTime 20000000100, ofTime 20000000200⟩, true, true, true⟩).isAccept = true := by
+  decide
+
+/-- Only an interleaved request lets a response be evaluated against the stored stamps of the
+    previous exchange, and then only if it echoes the request's receive timestamp. -/
+theorem C05_interleaved_tuple_only_for_interleaved_request (cfg : Cfg) (prev : Prev) (req : Req)
+    (cTx1 cRx : Int) (p : Payload) (a : Accepted) (h : ntpStage cfg prev req cTx1 cRx p = .accept a)
+    (hil : a.il = true) : req.interleaved = true ∧ p.pkt.origin = req.rx := by
+  obtain ⟨_, _, _, _, ha, _, _⟩ := ntpStage_accept cfg prev req cTx1 cRx p a h
+  subst ha
+  simpa [tupleOf] using hil
+
+/-- non-vacuity: an interleaved request (state 1 s old) answered with an interleaved response
+    (origin = the request's receive field, transmit stamp just after `prev.sRx`) is accepted and
+    evaluated against the stored stamps. -/
+example :
+    let prev : Prev := ⟨"S", true, ofTime 10000000000, ofTime 10000050000, ofTime 10000030000⟩
+    let cfg : Cfg := ⟨.ip, true, false, true⟩
+    let req := mkRequest cfg prev "S" 11000000000
+    req.interleaved = true ∧
+    (match ntpStage cfg prev req 11000000050 11000000900
+      ⟨48, ⟨36, 1, req.rx, ofTime 11000000100, ofTime 10000040000⟩, true, true, true⟩ with
+     | .accept a => a.il
+     | _ => false) = true := by
+  decide
+
+/-! ### Packet authenticator (client clause of C13; seeded change C13-5: extension looked up by
+the SCION next-header field) -/
+
+/-- With a key available, a response that carries — in its end-to-end extension, wherever that
+    sits behind the SCION header — an authenticator option with the time-service server SPI and
+    algorithm whose MAC does not verify is never accepted: the loop skips it (retry once, then
+    the error is returned) before the payload is looked at. -/
+theorem C05_scion_invalid_authenticator_never_accepted (cfg : Cfg) (sc : ScionCtx) (prev : Prev)
+    (req : Req) (cTx1 cRx : Int) (d : ScionDgram) (au : AuthOpt)
+    (he : (d.decoded.length ≥ 3 && secondLast d.decoded == some .e2e) = true)
+    (hk : sc.keyAvailable = true) (hau : d.authOpt = some au)
+    (hspi : au.spi = spiServer) (halg : au.alg = algCMAC) (hmac : au.macOk = false) :
+    (classifySCION cfg sc prev req cTx1 cRx d).isAccept = false := by
+  cases hs : classifySCION cfg sc prev req cTx1 cRx d with
+  | accept a =>
+    exfalso
+    obtain ⟨_, _, _, _, _, _, _, h8, _⟩ := C05_accept_sound_scion cfg sc prev req cTx1 cRx d a hs
+    have := h8 au he hk hau hspi halg
+    rw [hmac] at this; cases this
+  | skip e => rfl
+  | fatal e => rfl
+  | panic => rfl
+
+/-- The end-to-end extension is recognised by its position in front of the UDP layer, not by
+    the SCION header's next-header field: any layers in front of it (a hop-by-hop extension
+    header) do not hide the authenticator. -/
+theorem C05_scion_hbh_does_not_hide_authenticator (cfg : Cfg) (sc : ScionCtx) (prev : Prev)
+    (req : Req) (cTx1 cRx : Int) (d : ScionDgram) (au : AuthOpt) (pre : List Layer)
+    (hpre : pre ≠ []) (hd : d.decoded = pre ++ [.e2e, .udp])
+    (hk : sc.keyAvailable = true) (hau : d.authOpt = some au)
+    (hspi : au.spi = spiServer) (halg : au.alg = algCMAC) (hmac : au.macOk = false) :
+    (classifySCION cfg sc prev req cTx1 cRx d).isAccept = false := by
+  apply C05_scion_invalid_authenticator_never_accepted cfg sc prev req cTx1 cRx d au ?_ hk hau hspi halg hmac
+  have hlen : 1 ≤ pre.length := by
+    cases pre with
+    | nil => exact absurd rfl hpre
+    | cons x xs => simp
+  have hsl : secondLast (pre ++ [Layer.e2e, Layer.udp]) = some .e2e := by
+    unfold secondLast
+    have : (pre ++ [Layer.e2e, Layer.udp]).dropLast = pre ++ [Layer.e2e] := by
+      rw [show pre ++ [Layer.e2e, Layer.udp] = (pre ++ [Layer.e2e]) ++ [Layer.udp] by simp]
+      exact List.dropLast_concat
+    rw [this]; simp
+  rw [hd]
+  simp [hsl]
+  exact hlen
+
+/-- non-vacuity / the concrete packets of the stream: SCION | HBH | E2E(authenticator, MAC
+    wrong) | UDP is skipped with `errInvalidPacketAuthenticator`; the same with a verifying MAC,
+    and SCION | HBH | UDP without any authenticator, are accepted. -/
+example :
+    let req : Req := ⟨false, zero64, zero64, ofTime 10000000000, 10000000000⟩
+    let pay : Payload := ⟨48, ⟨36, 1, req.tx, ofTime 12000000100, ofTime 12000000200⟩, true, true, true⟩
+    let cfg : Cfg := ⟨.scion, true, false, true⟩
+    let sc : ScionCtx := ⟨1, 2, 3, 4, true⟩
+    classifySCION cfg sc Prev.init req 10000000050 10000000900
+      ⟨true, [.scion, .hbh, .e2e, .udp], 132, 56, 1, 2, 3, 4, none, some ⟨true, spiServer, algCMAC, false⟩, pay⟩
+      = .skip .auth ∧
+    (classifySCION cfg sc Prev.init req 10000000050 10000000900
+      ⟨true, [.scion, .hbh, .e2e, .udp], 132, 56, 1, 2, 3, 4, none, some ⟨true, spiServer, algCMAC, true⟩, pay⟩).isAccept
+      = true ∧
+    (classifySCION cfg sc Prev.init req 10000000050 10000000900
+      ⟨true, [.scion, .hbh, .udp], 100, 56, 1, 2, 3, 4, none, none, pay⟩).isAccept = true := by
+  decide
+
 /-! ### The exported `MeasureClockOffsetIP` (up to three attempts) -/
 
 /-- Success of the wrapper stems from a successful attempt: if anything was attempted and the
